@@ -231,7 +231,7 @@ def check_blank(s):
 # -- 5. TimingData sources -----------------------------------------------------------
 
 TD_STRINGS = {
-    "BPMS": (None, "", "0.000=120.000", "0.000=120.000,\n4.021=60.5", " 0=90 ,\r\n 1.5=180.25 "),
+    "BPMS": (None, "", "0.000=120.000", "0.000=120.000,\n4.021=60.5", " 0=90 ,\r\n 1.5=180.25 ", "-0.000=1.2E+2,\n1e1=6e1,\n10.333=0.000001"),
     "STOPS": (None, "", "2.000=0.500", "1.021=0.250,\n8=1"),
     "DELAYS": (None, "", "3.000=0.125"),
     "WARPS": (None, "", "4.000=2.000,\n16.5=0.021"),
